@@ -253,7 +253,15 @@ class SimulatorBase(
         assert step_result is not None
 
         general_ops = list(general_suffix.all_operations())
-        if all(isinstance(op.gate, ops.MeasurementGate) for op in general_ops):
+        measured_qubits = [q for op in general_ops for q in op.qubits]
+        # Sampling every measurement from one final state skips the noise that follows a qubit's
+        # measurement, which is only sound if that qubit is not measured again.
+        noise_is_skippable = self.noise == devices.NO_NOISE or len(measured_qubits) == len(
+            set(measured_qubits)
+        )
+        if noise_is_skippable and all(
+            isinstance(op.gate, ops.MeasurementGate) for op in general_ops
+        ):
             for step_result in self._core_iterator(
                 circuit=general_suffix, sim_state=sim_state, all_measurements_are_terminal=True
             ):
